@@ -121,6 +121,7 @@ fn dec(s: &str) -> String {
 // ------------------------------------------------------------------------------------------
 
 const BUDGET_MSG: &str = "C09-STEP-BUDGET";
+const DEPTH_MSG: &str = "C09-INPUT-DEPTH";
 
 #[derive(Default)]
 struct MemFs {
@@ -195,6 +196,12 @@ impl TexlangState for H {
         input.state().tick(4);
         if input.expansions().len() > 200_000 {
             panic!("{}", BUDGET_MSG);
+        }
+        // `\input` refuses to nest deeper than 100 levels ("too many input levels"); an input
+        // stack beyond that means the recursion limit is gone and the run would only end by
+        // exhausting memory (the step budget must not hide that).
+        if input.vm().num_current_sources() > 105 {
+            panic!("{}", DEPTH_MSG);
         }
         sl::expansion::noexpand_hook(token, input, tag)
     }
@@ -402,6 +409,8 @@ enum Outcome {
     },
     Panic(String),
     Budget,
+    /// a resource that the interpreter bounds (input nesting) grew beyond its bound
+    Unbounded(String),
 }
 
 fn excerpts_of(e: &error::TracedTexError) -> Vec<Excerpt> {
@@ -434,6 +443,7 @@ fn run_program(src: &str, proto: bool, budget: u64) -> Outcome {
     });
     match r {
         Err(msg) if msg.contains(BUDGET_MSG) => Outcome::Budget,
+        Err(msg) if msg.contains(DEPTH_MSG) => Outcome::Unbounded("input stack deeper than 105 levels".into()),
         Err(msg) => Outcome::Panic(msg),
         Ok((Ok(s), n)) => Outcome::Ok(s, n),
         Ok((Err(e), n_recovered)) => {
@@ -1251,6 +1261,75 @@ fn failing_scan_programs(rng: &mut Rng, thorough: bool) -> Vec<Vec<String>> {
     out
 }
 
+// ------------------------------------------------------------------------------------------
+// Allocated variables: `\newInt` / `\newIntArray` storage is a flat vector shared by all
+// arrays; every array is accessed at and around both of its ends, in every way a variable can
+// be accessed, with other allocations before, between and after, inside and outside groups.
+// ------------------------------------------------------------------------------------------
+
+fn array_programs(rng: &mut Rng) -> Vec<Vec<String>> {
+    let mut out = vec![];
+    let sizes: &[usize] = &[0, 1, 2, 3, 7];
+    let names = ["\\J", "\\K", "\\L"];
+    let accesses: &[&str] = &[
+        "@A@ @I@=5 ", "\\the@A@ @I@ ", "\\advance@A@ @I@ by 1 ", "\\multiply@A@ @I@ by 2 ", "\\divide@A@ @I@ by 0 ", "\\count1=@A@ @I@ ", "\\global@A@ @I@=1 ",
+        "{@A@ @I@=7 }\\the@A@ @I@ ", "\\ifnum@A@ @I@=0 a\\fi ", "\\ifcase@A@ @I@ a\\or b\\fi ", "\\count@A@ @I@=1 ", "@A@@A@ @I@=1 ", "\\count2=@I@ @A@\\count2=3 \\the@A@\\count2 ",
+        "\\dimen1=@A@ @I@pt ", "\\let\\Z=@A@ \\Z @I@=1 ", "\\catcode@A@ @I@=12 ",
+    ];
+    for n_arrays in 1..=3usize {
+        for round in 0..(if n_arrays == 1 { 2 } else { 3 }) {
+            let lens: Vec<usize> = (0..n_arrays).map(|_| *rng.pick(sizes)).collect();
+            // allocation preamble: arrays interleaved with single variables, sometimes in a group
+            // that stays open, sometimes re-allocating a name
+            let mut pre = String::new();
+            let in_group = round == 1;
+            if in_group {
+                pre.push('{');
+            }
+            for (k, len) in lens.iter().enumerate() {
+                if rng.chance(1, 2) {
+                    pre.push_str("\\newInt\\I ");
+                }
+                pre.push_str(&format!("\\newIntArray{} {} ", names[k], len));
+                if rng.chance(1, 5) {
+                    pre.push_str(&format!("\\newIntArray{} {} ", names[k], len));
+                }
+            }
+            for (k, len) in lens.iter().enumerate() {
+                let l = *len as i64;
+                let mut idx: Vec<i64> = vec![-1, 0, l - 1, l, l + 1, l + 7];
+                idx.sort();
+                idx.dedup();
+                for i in idx {
+                    for a in accesses {
+                        // every access at the two ends; elsewhere a sample
+                        if !(i == l || i == l - 1 || rng.chance(1, 3)) {
+                            continue;
+                        }
+                        let body = a.replace("@A@", names[k]).replace("@I@", &i.to_string());
+                        let mut parts = vec![pre.clone(), body];
+                        // then look at every array's last element: a write through a wrong index
+                        // shows up in a neighbour
+                        let mut tail = String::new();
+                        for (k2, len2) in lens.iter().enumerate() {
+                            if *len2 > 0 {
+                                tail.push_str(&format!("\\the{} {} ", names[k2], len2 - 1));
+                            }
+                        }
+                        if in_group && rng.chance(1, 2) {
+                            tail.push('}');
+                            tail.push_str(&format!("\\the{} 0 ", names[k]));
+                        }
+                        parts.push(tail);
+                        out.push(parts);
+                    }
+                }
+            }
+        }
+    }
+    out
+}
+
 struct C09 {
     driver_path: String,
     debug: bool,
@@ -1270,6 +1349,11 @@ impl C09 {
             Outcome::Budget => {
                 o.tag("outcome:budget (not counted)");
             }
+            Outcome::Unbounded(what) => {
+                o.tag("outcome:unbounded");
+                o.nontrivial = true;
+                o.fail(Kind::ImplVsSpec, "run", "input nesting exceeds the 100-level limit", format!("{what}: the recursion limit of \\input does not stop the run"));
+            }
             Outcome::Ok(out, n) => {
                 if self.debug {
                     eprintln!("OUTPUT: {out:?} ({n} recovered errors)");
@@ -1283,7 +1367,15 @@ impl C09 {
             Outcome::Panic(msg) => {
                 o.tag("outcome:panic");
                 o.nontrivial = true;
-                o.fail(Kind::ImplPanic, "run", sig_of_panic(&msg), format!("the VM panicked: {msg}"));
+                // Known finding C09-k is the execution of the internal getter provider of
+                // `\newInt` itself; the label is used for exactly that input shape and that panic,
+                // so any other way of reaching the same `panic!()` keeps its file:line signature.
+                let is_k = msg.starts_with("crates/texlang/src/variable.rs:")
+                    && msg.ends_with("explicit panic")
+                    && (prog.contains("\\newInt_getter_provider_^^@") || prog.contains("\\newInt_getter_provider_\u{0}"))
+                    && !prog.contains("newIntArray");
+                let sig = if is_k { "C09-k: the getter provider of \\newInt executed as a command".to_string() } else { sig_of_panic(&msg) };
+                o.fail(Kind::ImplPanic, "run", sig, format!("the VM panicked: {msg}"));
             }
             Outcome::Err { title, rendered, kind, primary, excerpts, n_recovered } => {
                 o.tag("outcome:error");
@@ -1455,6 +1547,7 @@ impl C09 {
             Outcome::Panic(m) if m.contains("unreachable") => "panic-unreachable".to_string(),
             Outcome::Panic(m) => format!("panic-other {m}"),
             Outcome::Budget => "budget".to_string(),
+            Outcome::Unbounded(w) => format!("unbounded {w}"),
         };
         o.tag(format!("proto:{}", got.split(' ').next().unwrap_or("")));
         o.nontrivial = evs.len() >= 1;
@@ -1505,7 +1598,7 @@ impl C09 {
             Outcome::Panic(m) => {
                 o.fail(Kind::ImplPanic, stream, sig_of_panic(&m), format!("{src}: {m}"));
             }
-            Outcome::Budget => o.fail(Kind::ModelVsSpec, stream, "budget", src),
+            Outcome::Budget | Outcome::Unbounded(_) => o.fail(Kind::ModelVsSpec, stream, "budget", src),
         }
     }
 
@@ -1563,7 +1656,7 @@ impl Property for C09 {
         "C09"
     }
     fn rule(&self) -> String {
-        "run: grammar-generated TeX programs over the full installed vocabulary (enumerated from texlang_stdlib::built_in_commands at run time, + \\par, \\newline), user macros, braces, boundary numbers/dimensions/indices/character codes, non-ASCII text, ^^ notation, token soup, every statement-prefix of a sample of programs, each in errorstop/scroll/nonstop/batch mode; plus undefined commands of every shape (control words/symbols with ASCII and 2/3/4-byte letters, names close to and far from primitives, empty and very long names, ASCII and non-ASCII active characters incl. combining marks, active space and end of line) in 34 contexts (bare, at end of input, after a group that defined them, after \\let to an undefined command, after \\the/\\advance/\\count/\\expandafter/\\noexpand/\\if.., in macro bodies, arguments and delimiters, as file names, ...) at line start / after multi-byte text / on later lines, in all four modes; plus a failing expansion (unmatched \\else/\\fi/\\or, \\input of a missing file, unterminated macro argument, undefined command, failing conditional, \\the of a non-variable, and \\expandafter/\\noexpand/\\the/\\input/\\ifnum at end of input) inserted after every piece of 66 statements cut at every look-ahead position of the scanners (signs, digits, decimal point, fraction digits, unit and keyword letters, =, register indices, conditional operands, \\the, \\expandafter, prefixes, file names), followed by more text and a final error or the end of input, in errorstop mode and one recovering mode in rotation (thorough: all four); plus extreme register states: \\count1, \\dimen0 and each component of \\skip0 (finite and fil/fill/filll) driven to -2^31, -2^31+1, 2^31-1, +-2^30, +-(2^30-1) by wrapping \\advance / \\multiply chains, then every one of ~130 arithmetic, scanning, comparison, index and code uses of that register, in all four modes; non-trivial = the run ended within the step budget (ok, error or panic). proto: every event sequence of length <= 4 plus random ones. chr/uint/ifcase: boundary values.".into()
+        "run: grammar-generated TeX programs over the full installed vocabulary (enumerated from texlang_stdlib::built_in_commands at run time, + \\par, \\newline), user macros, braces, boundary numbers/dimensions/indices/character codes, non-ASCII text, ^^ notation, token soup, every statement-prefix of a sample of programs, each in errorstop/scroll/nonstop/batch mode; plus undefined commands of every shape (control words/symbols with ASCII and 2/3/4-byte letters, names close to and far from primitives, empty and very long names, ASCII and non-ASCII active characters incl. combining marks, active space and end of line) in 34 contexts (bare, at end of input, after a group that defined them, after \\let to an undefined command, after \\the/\\advance/\\count/\\expandafter/\\noexpand/\\if.., in macro bodies, arguments and delimiters, as file names, ...) at line start / after multi-byte text / on later lines, in all four modes; plus a failing expansion (unmatched \\else/\\fi/\\or, \\input of a missing file, unterminated macro argument, undefined command, failing conditional, \\the of a non-variable, and \\expandafter/\\noexpand/\\the/\\input/\\ifnum at end of input) inserted after every piece of 66 statements cut at every look-ahead position of the scanners (signs, digits, decimal point, fraction digits, unit and keyword letters, =, register indices, conditional operands, \\the, \\expandafter, prefixes, file names), followed by more text and a final error or the end of input, in errorstop mode and one recovering mode in rotation (thorough: all four); plus \\newInt/\\newIntArray allocations (1-3 arrays of 0-7 elements, interleaved with single variables, in and out of groups, re-allocated names) with 16 kinds of access at indices -1, 0, len-1, len, len+1, len+7 of every array; plus extreme register states: \\count1, \\dimen0 and each component of \\skip0 (finite and fil/fill/filll) driven to -2^31, -2^31+1, 2^31-1, +-2^30, +-(2^30-1) by wrapping \\advance / \\multiply chains, then every one of ~130 arithmetic, scanning, comparison, index and code uses of that register, in all four modes; non-trivial = the run ended within the step budget (ok, error or panic). proto: every event sequence of length <= 4 plus random ones. chr/uint/ifcase: boundary values.".into()
     }
     fn builtin_corpus(&self) -> Vec<String> {
         let mut v = vec![];
@@ -1741,6 +1834,14 @@ impl Property for C09 {
                 }
             }
         }
+        // --- allocated arrays: every access at and around both ends of every array
+        let mut r5 = rng.fork();
+        for (i, parts) in array_programs(&mut r5).into_iter().enumerate() {
+            let modes: Vec<&str> = if ctx.thorough { MODES.to_vec() } else { vec![MODES[i % 4]] };
+            for m in modes {
+                out.push(format!("run {m} {}", enc_parts(&parts)));
+            }
+        }
         // --- a failing expansion at every look-ahead position of the scanners, in all four modes
         let mut r4 = rng.fork();
         for (i, parts) in failing_scan_programs(&mut r4, ctx.thorough).into_iter().enumerate() {
@@ -1785,7 +1886,9 @@ impl Property for C09 {
 
     fn run_case(&mut self, case: &str, drv: &mut Driver) -> CaseOutcome {
         let t0 = std::time::Instant::now();
+        *WATCH.lock().unwrap() = Some((case.to_string(), t0));
         let o = self.run_case_inner(case, drv);
+        *WATCH.lock().unwrap() = None;
         if self.debug && t0.elapsed().as_millis() > 50 {
             eprintln!("SLOW {} ms: {}", t0.elapsed().as_millis(), case);
         }
@@ -1909,20 +2012,53 @@ impl C09 {
                 let what = ws.next().unwrap_or("empty");
                 o.nontrivial = true;
                 o.tag(format!("deep:{what}"));
+                // The same construct at depth 50 and at depth n/20 must run: only then is a death
+                // by signal at depth n attributed to the depth itself (and, for `\ifnum`, to the
+                // recorded finding C09-n). Everything else gets a signature of its own.
                 let exe = std::env::current_exe().unwrap();
-                let st = std::process::Command::new(exe)
-                    .args(["--replay-case", &format!("deepchild {n} {what}"), "--driver", &self.driver_path])
-                    .stdout(std::process::Stdio::null())
-                    .stderr(std::process::Stdio::null())
-                    .status();
-                match st {
-                    Ok(s) if s.code() == Some(0) => o.tag("deep:ok"),
-                    Ok(s) => {
-                        o.tag("deep:killed");
-                        let sig = if what == "empty" { "stack overflow in next_expanded".to_string() } else { format!("stack overflow: nested {what}") };
-                        o.fail(Kind::ImplPanic, "deep", sig, format!("{n} x {what} (consecutive empty macro expansions / nested constructs) on the default 8 MiB main-thread stack: child ended with {s:?} (a stack overflow aborts the process)"));
+                let child = |depth: usize| -> Result<(), (bool, String)> {
+                    let st = std::process::Command::new(&exe)
+                        .args(["--replay-case", &format!("deepchild {depth} {what}"), "--driver", &self.driver_path])
+                        .stdout(std::process::Stdio::null())
+                        .stderr(std::process::Stdio::null())
+                        .status();
+                    match st {
+                        Ok(s) if s.code() == Some(0) => Ok(()),
+                        // (killed by a signal?, description)
+                        Ok(s) => Err((s.code().is_none(), format!("{s:?}"))),
+                        Err(e) => Err((false, format!("cannot spawn child: {e}"))),
                     }
-                    Err(e) => o.fail(Kind::ModelVsSpec, "deep", "cannot spawn child", e.to_string()),
+                };
+                let mid = (n / 20).max(100);
+                let mut failed = false;
+                for depth in [50, mid] {
+                    if depth >= n {
+                        continue;
+                    }
+                    if let Err((killed, d)) = child(depth) {
+                        failed = true;
+                        o.tag("deep:fails-shallow");
+                        let sig = if killed { format!("stack overflow: {what} already at depth {depth}") } else { format!("deep: {what} fails at depth {depth}") };
+                        o.fail(Kind::ImplPanic, "deep", sig, format!("{depth} x {what} on the default 8 MiB main-thread stack: child ended with {d}"));
+                        break;
+                    }
+                }
+                if !failed {
+                    match child(n) {
+                        Ok(()) => o.tag("deep:ok"),
+                        Err((true, d)) => {
+                            o.tag("deep:killed");
+                            let sig = match what {
+                                "empty" => "stack overflow in next_expanded".to_string(),
+                                "ifnum" => format!("C09-n: stack overflow of nested \\ifnum only beyond depth {mid}"),
+                                _ => format!("stack overflow: nested {what}"),
+                            };
+                            o.fail(Kind::ImplPanic, "deep", sig, format!("{n} x {what} (consecutive empty macro expansions / nested constructs) on the default 8 MiB main-thread stack: child ended with {d} (a stack overflow aborts the process); depth {mid} runs"));
+                        }
+                        Err((false, d)) => {
+                            o.fail(Kind::ImplPanic, "deep", format!("deep: {what} fails at depth {n}"), format!("{n} x {what}: child ended with {d}"));
+                        }
+                    }
                 }
             }
             "deepchild" => {
@@ -1937,13 +2073,64 @@ impl C09 {
                 match run_program(&src, false, u64::MAX / 2) {
                     Outcome::Ok(..) => {}
                     Outcome::Panic(m) => o.fail(Kind::ImplPanic, "deep", "deep: not ok", format!("child run panicked: {m}")),
-                    Outcome::Budget => o.fail(Kind::ImplPanic, "deep", "deep: not ok", "child run: budget"),
-                    Outcome::Err { title, .. } => o.fail(Kind::ImplPanic, "deep", "deep: not ok", format!("child run: error {title}")),
+                    Outcome::Budget | Outcome::Unbounded(_) => o.fail(Kind::ImplPanic, "deep", "deep: not ok", "child run: budget"),
+                    Outcome::Err { rendered: Ok(_), .. } => {}
+                    Outcome::Err { title, .. } => o.fail(Kind::ImplPanic, "deep", "deep: not ok", format!("child run: error {title} does not render")),
                 }
             }
             _ => o.fail(Kind::ModelVsSpec, "case", "bad case", case.to_string()),
         }
         o
+    }
+}
+
+/// The case being run and when it started: a loop that never reaches a hook of the state (so
+/// that the step budget cannot cut it) is noticed by a watchdog thread.
+static WATCH: std::sync::Mutex<Option<(String, std::time::Instant)>> = std::sync::Mutex::new(None);
+
+/// "Never hangs": when a case has produced no result for `limit` seconds the watchdog writes the
+/// report itself (one impl-panic failure with the case as replay) and ends the process.
+fn watchdog(out: Option<String>, tier: String, seed: u64) {
+    let started = std::time::Instant::now();
+    loop {
+        std::thread::sleep(std::time::Duration::from_millis(500));
+        let stuck = {
+            let g = WATCH.lock().unwrap();
+            match &*g {
+                Some((case, t)) => {
+                    let limit = if case.starts_with("deep") { 240 } else { 45 };
+                    if t.elapsed().as_secs() >= limit {
+                        Some((case.clone(), limit))
+                    } else {
+                        None
+                    }
+                }
+                None => None,
+            }
+        };
+        if let Some((case, limit)) = stuck {
+            let sig = "hang: no result (loop without progress)";
+            let detail = format!("the run produced no result within {limit} s and never reached a hook of the state (so the step budget cannot cut it off): an endless loop");
+            match out {
+                Some(path) => {
+                    let j = format!(
+                        "{{\n  \"property\": \"C09\",\n  \"tier\": {},\n  \"seed\": {seed},\n  \"evaluations\": 1,\n  \"distinct_nontrivial\": 1,\n  \"corpus_cases\": 0,\n  \"corpus_file_cases\": 0,\n  \"driver_requests\": 0,\n  \"failing_cases\": 1,\n  \"rule\": \"watchdog: the run was abandoned at the first case that hung\",\n  \"samples\": [{}],\n  \"histogram\": {{\"outcome:hang\": 1}},\n  \"failures\": [\n    {{\"kind\": \"impl-panic\", \"stream\": \"watchdog\", \"signature\": {}, \"detail\": {}, \"case\": {}}}\n  ],\n  \"wall_s\": {:.3}\n}}\n",
+                        jstr(&tier),
+                        jstr(&case),
+                        jstr(sig),
+                        jstr(&detail),
+                        jstr(&case),
+                        started.elapsed().as_secs_f64()
+                    );
+                    let _ = std::fs::write(&path, j);
+                    std::process::exit(0);
+                }
+                None => {
+                    eprintln!("replay: impl-panic stream=watchdog signature={sig}\n  {detail}");
+                    std::process::exit(1);
+                }
+            }
+        }
     }
 }
 
@@ -1982,6 +2169,12 @@ fn main() {
         // default main-thread stack on purpose
         run(C09 { driver_path, debug: std::env::var("C09_DEBUG").is_ok() });
         return;
+    }
+    {
+        let a: Vec<String> = std::env::args().collect();
+        let arg = |k: &str| a.iter().position(|x| x == k).and_then(|i| a.get(i + 1).cloned());
+        let (out, tier, seed) = (arg("--out"), arg("--tier").unwrap_or_else(|| "quick".into()), arg("--seed").and_then(|s| s.parse().ok()).unwrap_or(1));
+        std::thread::spawn(move || watchdog(out, tier, seed));
     }
     let h = std::thread::Builder::new()
         .stack_size(1 << 30)
